@@ -127,6 +127,9 @@ func compactDecode(data []byte) (uint64, int) {
 		v |= uint64(data[1+i]) << (8 * i)
 	}
 	v += uint64(rem) << (8 * length)
+	if v < uint64(1)<<(7*length) {
+		return 0, 0 // non-minimal encoding
+	}
 
 	return v, totalBytes
 }
